@@ -260,6 +260,9 @@ func (x *Exec) val(fr *Frame, st *State, v ssa.Value) Val {
 }
 
 func (x *Exec) runBlock(fr *Frame, st *State, b *ssa.BasicBlock, prev *ssa.BasicBlock, k kont) {
+	if fr.depth == 0 {
+		st.trace = append(st.trace, fmt.Sprintf("%d:%s@%s", b.Index, b.Comment, lineOf(x.prog.fset, b)))
+	}
 	li := x.loopInfoOf(fr.fn)
 	if lp, ok := li.headers[b.Index]; ok {
 		back := prev != nil && lp.blocks[prev.Index]
@@ -488,7 +491,7 @@ func (x *Exec) step(fr *Frame, st *State, ins ssa.Instruction) {
 		case Sl:
 			et := xv.GT.Underlying().(*types.Slice).Elem()
 			x.boundsCheck(fr, st, ins, iv, xv.Len)
-			fr.vals[ins] = Ptr{Prefix: "elem:" + typeStr(et), Idx: []Term{xv.Base, x.def(st, "ix", app(sInt, "+", xv.Off, iv))}, Elem: et, GT: ins.Type()}
+			fr.vals[ins] = Ptr{Prefix: x.elemPrefix(xv.Base, et), Idx: []Term{xv.Base, x.def(st, "ix", app(sInt, "+", xv.Off, iv))}, Elem: et, GT: ins.Type()}
 		default: // pointer to array
 			x.nilCheck(fr, st, xv, ins, "index of array pointer")
 			p := x.asPtr(xv)
@@ -1483,7 +1486,12 @@ func (x *Exec) assumeTypeInv(st *State, p Ptr) {
 	}
 	st.invSeen[key] = true
 	for _, inv := range invs {
-		t := x.evalTypeInv(st, inv, p)
+		// the invariant is known to hold in the heap of the last boundary, not necessarily in the current one
+		hs := st
+		if st.boundary != nil {
+			hs = st.boundary
+		}
+		t := x.evalTypeInv(hs, inv, p)
 		// aliasing with a dirty object of the same type makes the invariant unavailable
 		var guards []Term
 		for _, d := range st.dirty {
@@ -1586,4 +1594,13 @@ func alphaNorm(s string) string {
 		m[v] = r
 		return r
 	})
+}
+
+func lineOf(fset *token.FileSet, b *ssa.BasicBlock) string {
+	for _, ins := range b.Instrs {
+		if p := ins.Pos(); p.IsValid() {
+			return fmt.Sprint(fset.Position(p).Line)
+		}
+	}
+	return "?"
 }
